@@ -1,1 +1,65 @@
-(* placeholder *)
+(* C02 — every import statement in a scanned file becomes an import edge, only those.
+   [stmt] is a statement rose tree: SBlock stands for ANY statement with nested statement
+   lists (def, class, if/elif/else, try/except/else/finally, loops and their else, with,
+   match cases, and grammar positions not yet invented), [collect] the traversal of
+   converter.py, [resolve_stmt] the naming rules, [scan] the whole pipeline. *)
+From Coq Require Import List Bool NArith.
+From PTA Require Import Names Graph Search Scan NamesProofs SearchProofs GraphProofs ScanProofs.
+Import ListNotations.
+
+(* every import statement, at any depth of any compound statement, is collected - and only those *)
+Theorem C02_collect : forall (comp : Type) (s : @stmt comp) body,
+  In s (collect body) <-> exists t, In t body /\ occurs_in s t.
+Proof. exact @collect_spec. Qed.
+Print Assumptions C02_collect.
+
+(* naming: 'import a.b.c [as x]' names a.b.c (adjusted by the module_path prefix when that is a scanned module) *)
+Theorem C02_names_import : forall (comp : Type) (ceqb : comp -> comp -> bool) internal ap u n,
+  resolve_stmt ceqb internal ap u (SImport [n]) =
+  [{| i_importer := u; i_importee := adjust ceqb internal ap n; i_chain := proper_prefixes (adjust ceqb internal ap n) |}].
+Proof. reflexivity. Qed.
+Print Assumptions C02_names_import.
+
+(* 'from P import n' names P.n when that is itself a scanned (internal) module and P otherwise *)
+Theorem C02_names_from : forall (comp : Type) (ceqb : comp -> comp -> bool) internal u P nm,
+  i_importee (hd {| i_importer := u; i_importee := []; i_chain := [] |}
+                 (resolve_stmt ceqb internal None u (SFrom 0 (Some P) [nm]))) =
+  if memb ceqb (P ++ [nm]) internal then P ++ [nm] else P.
+Proof. intros. cbn. destruct (memb ceqb (P ++ [nm]) internal); reflexivity. Qed.
+Print Assumptions C02_names_from.
+
+(* relative forms are resolved against the importing file's package: level 1 = the file's own package *)
+Theorem C02_names_relative : forall (comp : Type) (ceqb : comp -> comp -> bool) internal ap u l P nm,
+  i_importee (hd {| i_importer := u; i_importee := []; i_chain := [] |}
+                 (resolve_stmt ceqb internal ap u (SFrom (S l) (Some P) [nm]))) =
+  let pkg := firstn (length u - S l) u in
+  if memb ceqb (pkg ++ P ++ [nm]) internal then pkg ++ P ++ [nm] else pkg ++ P.
+Proof. intros. cbn. rewrite <- app_assoc. destruct (memb ceqb _ internal); cbn; rewrite <- ?app_assoc; reflexivity. Qed.
+Print Assumptions C02_names_relative.
+
+(* the architecture's imports are exactly: an import statement occurring in the importer's file, resolved as above,
+   kept by the external-library options, between two different modules of the graph (an import of a direct child
+   package is the hierarchy edge itself) *)
+Theorem C02_edges_exact :
+  forall (comp : Type) (ceqb : comp -> comp -> bool), (forall x y, reflect (x = y) (ceqb x y)) ->
+  forall (c : @scan_cfg comp) r mods files a b,
+  sc_limit c = None ->
+  walk_from ceqb (sc_excl c) (sc_root c) (sc_tree c) (sc_mp c) = Some (mods, files) ->
+  scan ceqb c = Some r ->
+  (In (a, b) (imps (sr_graph r)) <->
+   exists body s i,
+     In (a, body) files /\ In s (collect body) /\
+     In i (resolve_stmt ceqb (filter (is_internal ceqb c) mods) (abs_prefix c) a s) /\
+     i_importee i = b /\ keep_import ceqb c i = true /\
+     a <> b /\ In a (nodes (sr_graph r)) /\ In b (nodes (sr_graph r)) /\ childb ceqb a b = false).
+Proof. exact @scan_edges. Qed.
+Print Assumptions C02_edges_exact.
+
+(* non-vacuity: an import three blocks deep, in the else-branch position, in proj/pkg/m.py *)
+Open Scope N_scope.
+Example C02_example :
+  let tree := [FDir 2 [FFile 3 true [SBlock [SOther; SBlock [SBlock [SFrom 0 (Some [1;2]) [4]]]]]; FFile 4 true []]] in
+  let c := {| sc_root := 1; sc_tree := tree; sc_mp := []; sc_excl := fun _ => false; sc_exclude_external := true;
+              sc_ext_excl := fun _ => false; sc_has_ext_excl := false; sc_limit := None |} in
+  option_map (fun r => imps (sr_graph r)) (scan N.eqb c) = Some [([1;2;3], [1;2;4])].
+Proof. vm_compute. reflexivity. Qed.
